@@ -67,7 +67,7 @@ def gen(rng, k):
         d = rng.choice(list(socks))
         dn = socks[d]
         port = rng.choice([5000, 5000, 5001, 2000, 2001, 80, 65534])
-        sizes = rng.choice([[1], [100], [1472], [1473], [400, 100], [60000], [65535], [65536], [0], [10, 0, 20], [200] * 3, [501], [500]])
+        sizes = rng.choice([[1], [100], [1472], [1473], [400, 100], [0], [10, 0, 20], [200] * 3, [501], [500], [20000]]) if rng.random() < 0.96 else rng.choice([[60000], [65535], [65536]])
         bufs = " ".join("%d %d" % (rng.randrange(1000), z) for z in sizes)
         return "udp_send %d 0 %d %d : %s" % (s, net.ip(dn)[1], port, bufs)
     for _ in range(rng.choice([1, 3, 8, 20])):
@@ -113,7 +113,7 @@ def gen(rng, k):
 
 
 def generate(rng, tier):
-    n = 250 if tier == "quick" else 4000
+    n = 150 if tier == "quick" else 4000
     return [("u%d" % k, gen(rng, k)) for k in range(n)]
 
 
